@@ -499,18 +499,32 @@ type RW struct {
 	WriteBeforeH bool
 	WriteFail    string // "", "error", "short"
 	WriteFailed  bool
+	// Hook, when set, is called on entry of Header / WriteHeader / Write
+	Hook func(at string)
 }
 
 func NewRW() *RW { return &RW{H: http.Header{}} }
 
-func (r *RW) Header() http.Header { r.HeaderCalls++; return r.H }
+func (r *RW) Header() http.Header {
+	if r.Hook != nil {
+		r.Hook("Header")
+	}
+	r.HeaderCalls++
+	return r.H
+}
 func (r *RW) WriteHeader(code int) {
+	if r.Hook != nil {
+		r.Hook("WriteHeader")
+	}
 	r.Statuses = append(r.Statuses, code)
 	if r.HeaderAtWH == nil {
 		r.HeaderAtWH = r.H.Clone()
 	}
 }
 func (r *RW) Write(b []byte) (int, error) {
+	if r.Hook != nil {
+		r.Hook("Write")
+	}
 	if len(r.Statuses) == 0 {
 		r.WriteBeforeH = true
 	}
